@@ -209,7 +209,7 @@ structure Cfg where
   audit : Bool := false
   /-- master rule verdict for a well-formed proof of a chain: `some true` accepts,
       `some false` rejects with an error, `none` = chain unknown / no rule bound -/
-  rule : String → Option Bool := fun c => if c == "c1" || c == "c2" then some true else if c == "c3" then some false else none
+  rule : String → Option Bool := fun c => if c == "c1" || c == "c2" || c == "c4" then some true else if c == "c3" then some false else none
 
 def gasNormal : Nat := 21000
 def gasFailed : Nat := 21000
@@ -308,8 +308,12 @@ def notifyFlags (c : StatusChange) : Bool × Bool :=
 
 /-- TransactionManager.addToTimeoutList -/
 def tmAddTimeout (l : Led) (h : Nat) (id : TId) : Led :=
+  -- a list emptied earlier is stored as "" (`[none]`), which reads as an absent key since the `fix:` commit
+  -- "a storage key with an empty value does not exist"
   match l.getS (.timeout h) with
-  | some (.tlist lst) => l.setS (.timeout h) (some (.tlist (lst ++ [some id])))
+  | some (.tlist lst) =>
+    if lst == [none] then l.setS (.timeout h) (some (.tlist [some id]))
+    else l.setS (.timeout h) (some (.tlist (lst ++ [some id])))
   | _ => l.setS (.timeout h) (some (.tlist [some id]))
 
 /-- Go's in-place `list = append(list[:i], list[i+1:]...)` while ranging over the original
@@ -337,6 +341,7 @@ def normList (l : List (Option TId)) : List (Option TId) := if l.isEmpty then [n
 def tmRemoveTimeout (l : Led) (h : Nat) (id : TId) : Except String Led :=
   match l.getS (.timeout h) with
   | some (.tlist lst) =>
+    if lst == [none] then .ok l else      -- "" reads as an absent key: nothing to remove
     match goRemove lst id with
     | some r => .ok (l.setS (.timeout h) (some (.tlist (normList r))))
     | none => .error "panic"
@@ -563,7 +568,9 @@ def beginTransaction (env : Env) (l : Led) (i : Ibtp) (ck : Checked) : Except St
       | .error _ => .error "2080000"
       | .ok r => .ok r
 
-/-- `addToMultiTxNotifyMap` (note: the destination branch uses `ibtpIDs[0]` for every id) -/
+/-- `addToMultiTxNotifyMap`: towards the source all ids go under the (common) source chain; towards the
+destinations each id goes under its own destination chain (since the `fix:` commit "file each
+rolled-back child under its own destination chain"; before, every id went under the first id's chain) -/
 def addToMultiNotify (env : Env) (l : Led) (ids : List TxId) (toSrc : Bool) : Led :=
   match ids with
   | [] => l
@@ -571,8 +578,9 @@ def addToMultiNotify (env : Env) (l : Led) (ids : List TxId) (toSrc : Bool) : Le
     let m : KV String (List TxId) := match l.getS (.multi env.height) with
       | some (.notify m) => m
       | _ => []
-    let chain := if toSrc then id0.frm.chain else id0.to.chain
-    let m' := KV.set m chain (KV.getD m chain [] ++ ids)
+    let m' :=
+      if toSrc then KV.set m id0.frm.chain (KV.getD m id0.frm.chain [] ++ ids)
+      else ids.foldl (fun m id => KV.set m id.to.chain (KV.getD m id.to.chain [] ++ [id])) m
     l.setS (.multi env.height) (some (.notify m'))
 
 def unionPier := "default_union_pier_id"
